@@ -379,4 +379,3 @@ func parens(xs []string) []string {
 	}
 	return o
 }
-
